@@ -96,6 +96,45 @@ func TestVerifC05(t *testing.T) {
 			r.Count("pairs_whole_second", upper-2)
 			r.Nontrivial(id)
 		}
+		// Pairs exactly as the real parser produces them for fractional
+		// max_interval values with default, "auto" and explicit min_interval.
+		np := r.Pick(3000, 60000)
+		for k := 0; k < np; k++ {
+			id := fmt.Sprintf("parsed/%d", k)
+			var max time.Duration
+			switch k % 4 {
+			case 0:
+				max = 4*time.Second + time.Duration(rr.Int63n(int64(5*time.Second)))/time.Millisecond*time.Millisecond // [4s,9s): default min = max
+			case 1:
+				max = 9*time.Second + time.Duration(rr.Int63n(int64(20*time.Second)))/time.Millisecond*time.Millisecond
+			case 2:
+				max = time.Duration(4000+rr.Intn(1796001)) * time.Millisecond
+			default:
+				max = []time.Duration{4 * time.Second, 4001 * time.Millisecond, 4500 * time.Millisecond, 4999 * time.Millisecond, 5250 * time.Millisecond, 8999 * time.Millisecond, 9 * time.Second, 9001 * time.Millisecond, 1800 * time.Second}[rr.Intn(9)]
+			}
+			d := vBaseDoc(0, max)
+			switch k % 3 {
+			case 1:
+				d.Ifaces[0].MinInterval = model.DAuto()
+			case 2:
+				upper := time.Duration(0.75 * float64(max)).Truncate(time.Second)
+				if upper >= 3*time.Second {
+					d.Ifaces[0].MinInterval = model.D(int64(3*time.Second + time.Duration(rr.Int63n(int64(upper-3*time.Second)+1))/time.Millisecond*time.Millisecond))
+				}
+			}
+			if !r.Mine(id) {
+				continue
+			}
+			r.Begin(id)
+			ifi, _, err := vParseOne(d)
+			if err != nil {
+				r.Violation(id, "harness", "document rejected: "+err.Error(), map[string]any{"toml": d.TOML()})
+				continue
+			}
+			r.Evals(c05Pair(r, id, ifi.MinInterval, ifi.MaxInterval, rr.Int63()) - 1)
+			r.Count("pairs_from_real_parser", 1)
+			r.Nontrivial(id)
+		}
 		// Fractional values the parser accepts.
 		nf := r.Pick(4000, 200000)
 		for k := 0; k < nf; k++ {
@@ -137,8 +176,11 @@ func TestVerifC05(t *testing.T) {
 		id := fmt.Sprintf("loop/%d", k)
 		var min, max time.Duration
 		switch k % 3 {
-		case 0: // min = max < 9 s (default min)
+		case 0: // min = max < 9 s (default min), whole and fractional seconds
 			min, max = 0, time.Duration(6+rr.Intn(3))*time.Second
+			if k%2 == 1 {
+				max += time.Duration(rr.Intn(999)+1) * time.Millisecond
+			}
 		case 1:
 			max = time.Duration(8+rr.Intn(60)) * time.Second
 			min = time.Duration(6+rr.Intn(int(max/time.Second)*3/4-5)) * time.Second
